@@ -256,6 +256,12 @@ def main(argv=None):
       harness_errors.append(f'worker {w} produced no summary')
   n_runs = sum(s['runs'] for s in fam_stats.values())
   wall = time.time() - t0
+  n_cut = sum(s['counters'].get('harness:aborted_wall', 0)
+              for s in fam_stats.values())
+  if n_cut > max(10, n_runs // 200):
+    harness_errors.append(
+        f'{n_cut} of {n_runs} runs were cut by the real-time limit per run '
+        '(machine overloaded?): too many to call the batch conclusive')
   # ---- triage ----------------------------------------------------------------
   known = load_known(prop)
   known_sigs = {f['sig']: f for f in known}
